@@ -141,6 +141,7 @@ func (bw *BatchedWriter) Enqueue(object BatchWriteObject) {
 	// (with the counter raised after the check, a StopBatchWriter completing in between left the object in the
 	// queue forever, or this call blocked forever on a full queue.)
 	bw.scheduledCount.Add(1)
+	verifYield("BatchedWriter.Enqueue")
 
 	// abort if the BatchWriter has been stopped
 	if !bw.running.Load() {
